@@ -26,6 +26,7 @@ class shim_datetime(metaclass = _DTMeta):
         if not c.branch(z3.And(zy >= 1, zy <= 9999)): raise ValueError('year is out of range')
         if not c.branch(valid(zy, zm, zd)): raise ValueError('day is out of range for month')
         t = SymDatetime(dfc(zy, zm, zd), z3.simplify(tod)); t._ymd = (zy, zm, zd)
+        core.register_civil(c, t._ymd, t.o)
         return t
     now = staticmethod(lambda *a: _clock('now'))
     utcnow = staticmethod(lambda *a: _clock('now'))
